@@ -269,15 +269,17 @@ func (s *Sorts) header() string {
 	b.WriteString("(define-fun nil.iface () Iface (mk-iface 0 0))\n")
 	b.WriteString("(define-fun nil.func () Func (mk-func 0 0))\n")
 	b.WriteString("(define-fun f64.zero () F64 (_ +zero 11 53))\n")
-	b.WriteString("(declare-fun str.len (Str) Int)\n")
-	b.WriteString("(declare-fun str.at (Str Int) Int)\n")
-	b.WriteString("(declare-fun str.cat (Str Str) Str)\n")
-	b.WriteString("(declare-fun str.sub (Str Int Int) Str)\n")
-	b.WriteString("(declare-fun str.lt (Str Str) Bool)\n")
-	b.WriteString("(assert (forall ((s Str)) (! (and (>= (str.len s) 0) (<= (str.len s) " + maxLen + ")) :pattern ((str.len s)))))\n")
-	b.WriteString("(assert (forall ((s Str) (i Int)) (! (and (>= (str.at s i) 0) (<= (str.at s i) 255)) :pattern ((str.at s i)))))\n")
-	b.WriteString("(assert (forall ((a Str) (b Str)) (! (= (str.len (str.cat a b)) (+ (str.len a) (str.len b))) :pattern ((str.cat a b)))))\n")
-	b.WriteString("(assert (forall ((s Str) (i Int) (j Int)) (! (=> (and (<= 0 i) (<= i j) (<= j (str.len s))) (= (str.len (str.sub s i j)) (- j i))) :pattern ((str.sub s i j)))))\n")
+	b.WriteString("(declare-fun sl.ix (Int Int) Int)\n")
+	b.WriteString("(assert (forall ((o Int) (i Int)) (! (= (sl.ix o i) (+ o i)) :pattern ((sl.ix o i)))))\n")
+	b.WriteString("(declare-fun gs.len (Str) Int)\n")
+	b.WriteString("(declare-fun gs.at (Str Int) Int)\n")
+	b.WriteString("(declare-fun gs.cat (Str Str) Str)\n")
+	b.WriteString("(declare-fun gs.sub (Str Int Int) Str)\n")
+	b.WriteString("(declare-fun gs.lt (Str Str) Bool)\n")
+	b.WriteString("(assert (forall ((s Str)) (! (and (>= (gs.len s) 0) (<= (gs.len s) " + maxLen + ")) :pattern ((gs.len s)))))\n")
+	b.WriteString("(assert (forall ((s Str) (i Int)) (! (and (>= (gs.at s i) 0) (<= (gs.at s i) 255)) :pattern ((gs.at s i)))))\n")
+	b.WriteString("(assert (forall ((a Str) (b Str)) (! (= (gs.len (gs.cat a b)) (+ (gs.len a) (gs.len b))) :pattern ((gs.cat a b)))))\n")
+	b.WriteString("(assert (forall ((s Str) (i Int) (j Int)) (! (=> (and (<= 0 i) (<= i j) (<= j (gs.len s))) (= (gs.len (gs.sub s i j)) (- j i))) :pattern ((gs.sub s i j)))))\n")
 	// Go truncated division and remainder
 	b.WriteString("(define-fun go.div ((a Int) (b Int)) Int (ite (>= a 0) (ite (> b 0) (div a b) (- (div a (- b)))) (ite (> b 0) (- (div (- a) b)) (div (- a) (- b)))))\n")
 	b.WriteString("(define-fun go.mod ((a Int) (b Int)) Int (- a (* b (go.div a b))))\n")
@@ -301,10 +303,10 @@ func (s *Sorts) header() string {
 			n := fmt.Sprintf("lit$%d", i)
 			names = append(names, n)
 			fmt.Fprintf(&b, "(declare-const %s Str) ; %q\n", n, v)
-			fmt.Fprintf(&b, "(assert (= (str.len %s) %d))\n", n, len(v))
+			fmt.Fprintf(&b, "(assert (= (gs.len %s) %d))\n", n, len(v))
 			if len(v) <= 16 {
 				for j := 0; j < len(v); j++ {
-					fmt.Fprintf(&b, "(assert (= (str.at %s %d) %d))\n", n, j, v[j])
+					fmt.Fprintf(&b, "(assert (= (gs.at %s %d) %d))\n", n, j, v[j])
 				}
 			}
 		}
@@ -312,7 +314,7 @@ func (s *Sorts) header() string {
 			b.WriteString("(assert (distinct " + strings.Join(names, " ") + "))\n")
 		}
 		if e, ok := s.lits[""]; ok {
-			b.WriteString("(assert (forall ((s Str)) (! (=> (= (str.len s) 0) (= s " + e + ")) :pattern ((str.len s)))))\n")
+			b.WriteString("(assert (forall ((s Str)) (! (=> (= (gs.len s) 0) (= s " + e + ")) :pattern ((gs.len s)))))\n")
 		}
 	}
 	for _, d := range s.extraDecls {
